@@ -35,6 +35,28 @@ partial def collectAx (env : Environment) (c : Name) (seen : NameSet) (axs : Nam
     v.ctors.foldl (fun (sa : NameSet × NameSet) n => collectAx env n sa.1 sa.2) (seen, axs)
   | none => (seen, axs)
 
+/-- binder names of a type `∀ (a : A) (b : B) …, T` -/
+partial def binderNames : Expr → List Name
+  | .forallE n _ b _ => n :: binderNames b
+  | _ => []
+
+/-- `S.f` where `S` is a one-constructor inductive (a structure) and `f` one of the
+constructor's arguments: a projection generated for a `Prop`-valued structure, not a
+theorem somebody stated -/
+def isProjection (env : Environment) (n : Name) : Bool :=
+  match n with
+  | .str p f =>
+    match env.find? p with
+    | some (.inductInfo v) =>
+      match v.ctors with
+      | [c] =>
+        match env.find? c with
+        | some (.ctorInfo cv) => (binderNames cv.type).contains (.mkSimple f)
+        | _ => false
+      | _ => false
+    | _ => false
+  | _ => false
+
 unsafe def main (args : List String) : IO UInt32 := do
   initSearchPath (← findSysroot)
   let mods := args.map String.toName
@@ -46,7 +68,7 @@ unsafe def main (args : List String) : IO UInt32 := do
     for ci in md.constants do
       match ci with
       | .thmInfo _ =>
-        if !isAuxName ci.name then
+        if !isAuxName ci.name && !isProjection env ci.name then
           let (_, ax) := collectAx env ci.name {} {}
           let axs := ax.toList.map (·.toString)
           IO.println (Json.mkObj [("module", toJson m.toString), ("theorem", toJson ci.name.toString),
